@@ -54,7 +54,7 @@ def run_ext(ctx):
         except vlib.ModelError:
             ctx.extra["dyn_model_selftests"] = ctx.extra.get("dyn_model_selftests", 0) + 1
     # 2. exhaustive: Impl => Abstract in every reachable state, for every signer list of the family and every account
-    for cfg in (("MC_q1.cfg", "MC_q2.cfg", "MC_q3.cfg") if q else ("MC_full.cfg", "MC_try.cfg", "MC_try2.cfg")):
+    for cfg in (("MC_q1.cfg", "MC_q2.cfg", "MC_q3.cfg") if q else ("MC_full.cfg", "MC_try.cfg", "MC_try2.cfg", "MC_try3.cfg")):
         ctx.tlc_mc("witnessdyn", "MCWitnessDyn.tla", cfg, timeout=2400, workers=4)
     # 3. behaviours of the implementation-shaped model
     behaviours, seen = [], set()
